@@ -976,11 +976,68 @@ def _rewrite_functional(fn: ast.FunctionDef) -> int:
                 if loads and all(id(m) in star_uses for m in loads):
                     optdicts[tgt.id] = v
 
+    def _subst_const(expr, var, const):
+        """expr with the loads of *var* replaced by the constant; getattr(x, <that constant>) becomes the attribute load"""
+        class S1(ast.NodeTransformer):
+            def visit_Name(self, n2):
+                if n2.id == var and isinstance(n2.ctx, ast.Load):
+                    return ast.copy_location(ast.Constant(value=const.value), n2)
+                return n2
+
+            def visit_Call(self, n2):
+                self.generic_visit(n2)
+                if isinstance(n2.func, ast.Name) and n2.func.id == "getattr" and len(n2.args) == 2 and not n2.keywords \
+                        and isinstance(n2.args[1], ast.Constant) and isinstance(n2.args[1].value, str) and n2.args[1].value.isidentifier() \
+                        and getattr(n2.args[1], "_from_table", False):
+                    return ast.copy_location(ast.Attribute(value=n2.args[0], attr=n2.args[1].value, ctx=ast.Load()), n2)
+                return n2
+
+            def visit_Constant(self, n2):
+                return n2
+        new = copy.deepcopy(expr)
+        # mark the constants we put in, so that only getattr() calls with *our* constant are turned into attribute loads
+        class M(ast.NodeTransformer):
+            def visit_Name(self, n2):
+                if n2.id == var and isinstance(n2.ctx, ast.Load):
+                    c_ = ast.copy_location(ast.Constant(value=const.value), n2)
+                    c_._from_table = True
+                    return c_
+                return n2
+        new = M().visit(new)
+        return S1().visit(new)
+
+    def _const_comprehension(node):
+        """[E for v in ("a", "b")] / {K: V for v in (...)} over at most MAX_UNROLL constants, no filter -> the display"""
+        if not (isinstance(node, (ast.ListComp, ast.SetComp, ast.DictComp)) and len(node.generators) == 1):
+            return None
+        g_ = node.generators[0]
+        if g_.ifs or g_.is_async or not isinstance(g_.target, ast.Name) or not isinstance(g_.iter, (ast.Tuple, ast.List)):
+            return None
+        if not (0 < len(g_.iter.elts) <= MAX_UNROLL and all(isinstance(e_, ast.Constant) for e_ in g_.iter.elts)):
+            return None
+        parts = [node.key, node.value] if isinstance(node, ast.DictComp) else [node.elt]
+        if any(isinstance(x, ast.Name) and x.id == g_.target.id and isinstance(x.ctx, ast.Store) for p_ in parts for x in ast.walk(p_)):
+            return None
+        if isinstance(node, ast.DictComp):
+            return ast.Dict(keys=[_subst_const(node.key, g_.target.id, c_) for c_ in g_.iter.elts],
+                            values=[_subst_const(node.value, g_.target.id, c_) for c_ in g_.iter.elts])
+        elts = [_subst_const(node.elt, g_.target.id, c_) for c_ in g_.iter.elts]
+        return ast.List(elts=elts, ctx=ast.Load()) if isinstance(node, ast.ListComp) else ast.Set(elts=elts)
+
     class T(ast.NodeTransformer):
         def visit_FunctionDef(self, node):
             if node is fn:
                 self.generic_visit(node)
             return node
+
+        def _comp(self, node):
+            self.generic_visit(node)
+            new = _const_comprehension(node)
+            if new is not None:
+                count[0] += 1
+                return ast.copy_location(new, node)
+            return node
+        visit_ListComp = visit_SetComp = visit_DictComp = _comp
 
         def visit_Call(self, node):
             self.generic_visit(node)
@@ -1404,6 +1461,103 @@ def _unroll_table_loops(body: List[ast.stmt], table_of) -> bool:
     return changed
 
 
+# ---------------------------------------------------------------------------------------------------------- reflective calls over a closed domain
+def _attr_domain(cls: ast.ClassDef, attr: str):
+    """The constants an instance attribute can hold besides a falsy "not set": `__init__` rejects every other value
+    (`if self.A and self.A not in ("lower", "upper"): raise`) and no other method of the class assigns it."""
+    init = next((n for n in cls.body if isinstance(n, ast.FunctionDef) and n.name == "__init__"), None)
+    if init is None or not init.args.args:
+        return None
+    me = init.args.args[0].arg
+    for m in cls.body:
+        if isinstance(m, ast.FunctionDef) and m is not init:
+            if any(isinstance(t, ast.Attribute) and t.attr == attr and isinstance(t.ctx, ast.Store) for t in ast.walk(m)):
+                return None
+    for st in ast.walk(init):
+        if isinstance(st, ast.If) and st.body and isinstance(st.body[0], ast.Raise):
+            for c in ast.walk(st.test):
+                if isinstance(c, ast.Compare) and len(c.ops) == 1 and isinstance(c.ops[0], ast.NotIn) and isinstance(c.left, ast.Attribute) \
+                        and c.left.attr == attr and isinstance(c.left.value, ast.Name) and c.left.value.id == me \
+                        and isinstance(c.comparators[0], (ast.Tuple, ast.List, ast.Set)) and c.comparators[0].elts \
+                        and all(isinstance(e, ast.Constant) and isinstance(e.value, str) and e.value.isidentifier() for e in c.comparators[0].elts) \
+                        and len(c.comparators[0].elts) <= MAX_UNROLL:
+                    return [e.value for e in c.comparators[0].elts]
+    return None
+
+
+def _rewrite_dict_attr(fn: ast.FunctionDef) -> int:
+    """`x.__dict__["n"]`, `x.__dict__.get("n"[, d])`, `x.__dict__.setdefault("n", d)` with a constant identifier name are the
+    attribute `x.n` read directly / with a default (`getattr(x, "n", d)`); `x.__dict__["n"] = v` is `x.n = v`.  (setdefault also
+    stores the default when the attribute is missing: the store is not represented, the value read is.)"""
+    count = [0]
+
+    def is_dict_of(e):
+        return isinstance(e, ast.Attribute) and e.attr == "__dict__" and _plain_chain(e.value)
+
+    def ident(c):
+        return isinstance(c, ast.Constant) and isinstance(c.value, str) and c.value.isidentifier()
+
+    class D(ast.NodeTransformer):
+        def visit_Subscript(self, node):
+            self.generic_visit(node)
+            if is_dict_of(node.value) and ident(node.slice):
+                count[0] += 1
+                return ast.copy_location(ast.Attribute(value=node.value.value, attr=node.slice.value, ctx=node.ctx), node)
+            return node
+
+        def visit_Call(self, node):
+            self.generic_visit(node)
+            f = node.func
+            if isinstance(f, ast.Attribute) and f.attr in ("get", "setdefault") and is_dict_of(f.value) and node.args and ident(node.args[0]) \
+                    and len(node.args) <= 2 and not node.keywords:
+                count[0] += 1
+                default = node.args[1] if len(node.args) == 2 else ast.Constant(value=None)
+                return ast.copy_location(ast.Call(func=ast.Name(id="getattr", ctx=ast.Load()),
+                                                  args=[f.value.value, node.args[0], default], keywords=[]), node)
+            return node
+    D().visit(fn)
+    if count[0]:
+        ast.fix_missing_locations(fn)
+    return count[0]
+
+
+def _rewrite_domain_getattr(fn: ast.FunctionDef, cls: Optional[ast.ClassDef]) -> int:
+    """`getattr(x, self.A)` where `self.A` ranges over a closed set of names (see _attr_domain) is the chain
+    `x.n1 if self.A == "n1" else x.n2 ...`"""
+    if cls is None or not fn.args.args:
+        return 0
+    me = fn.args.args[0].arg
+    count = [0]
+
+    class G(ast.NodeTransformer):
+        def visit_Call(self, node):
+            self.generic_visit(node)
+            if isinstance(node.func, ast.Name) and node.func.id == "getattr" and len(node.args) == 2 and not node.keywords \
+                    and isinstance(node.args[1], ast.Attribute) and isinstance(node.args[1].value, ast.Name) and node.args[1].value.id == me \
+                    and _simple_arg(node.args[0]):
+                dom = _attr_domain(cls, node.args[1].attr)
+                if dom:
+                    out = ast.Attribute(value=copy.deepcopy(node.args[0]), attr=dom[-1], ctx=ast.Load())
+                    for name in reversed(dom[:-1]):
+                        test = ast.Compare(left=copy.deepcopy(node.args[1]), ops=[ast.Eq()], comparators=[ast.Constant(value=name)])
+                        out = ast.IfExp(test=test, body=ast.Attribute(value=copy.deepcopy(node.args[0]), attr=name, ctx=ast.Load()), orelse=out)
+                    count[0] += 1
+                    out._domain_chain = True
+                    return ast.copy_location(out, node)
+            if isinstance(node.func, ast.IfExp) and getattr(node.func, "_domain_chain", False) and all(_simple_arg(a) for a in node.args) and not node.keywords:
+                # (x.a if c else x.b)(args)  ->  x.a(args) if c else x.b(args)
+                def spread(e):
+                    if isinstance(e, ast.IfExp):
+                        return ast.IfExp(test=e.test, body=spread(e.body), orelse=spread(e.orelse))
+                    return ast.Call(func=e, args=[copy.deepcopy(a) for a in node.args], keywords=[])
+                return ast.copy_location(spread(node.func), node)
+            return node
+    G().visit(fn)
+    if count[0]:
+        ast.fix_missing_locations(fn)
+    return count[0]
+
+
 # ---------------------------------------------------------------------------------------------------------- dispatch through a constant dict
 def _rewrite_dict_dispatch(fn: ast.FunctionDef, dict_of) -> bool:
     """`h = TABLE.get(key, default)` ... `return h(args)` (TABLE a constant dict display of at most MAX_UNROLL entries with
@@ -1797,6 +1951,10 @@ def normalize_module_trees(modules: Dict[str, ast.Module]) -> List[str]:
                         if isinstance(f, ast.Name) and f.id in class_defs and f.id not in KNOWN_CLASSES:
                             return class_defs[f.id]
                         return None
+                    nd_ = _rewrite_domain_getattr(fn, cls) + _rewrite_dict_attr(fn)
+                    if nd_:
+                        any_change = True
+                        log.append("%s.%s: %d reflective lookup(s) over a closed domain written out" % (cls.name if cls else mn, fn.name, nd_))
                     ns_ = _split_handlers_by_isinstance(fn)
                     if ns_:
                         any_change = True
